@@ -7,6 +7,10 @@
 //! flush    real `ColumnWriter` segment files, `ColumnReader`, `ConditionEvaluator` rows, recompaction
 //!          through `into_scalar_values` + `ZonePlan::from_rows`      = the four tier functions
 //! project  real `build_memtable_flow` header / cells                = `ReturnProjection.projection`
+//! memrows  real `build_memtable_flow` rows over active + passive memtables, optional keys omitted
+//!                                                                  = `MemRows.memRows`
+//! e2e      the whole engine in a child process (DEFINE/STORE/QUERY/REPLAY/FLUSH/compaction/restart),
+//!          optional keys omitted, every tier; oracle only
 use std::collections::{BTreeMap, BTreeSet, HashMap};
 use std::path::{Path, PathBuf};
 use std::sync::Arc;
@@ -1186,7 +1190,353 @@ fn stream_project(a: &Args, rt: &tokio::runtime::Runtime) {
     s.finish();
 }
 
+// ------------------------------------------------------------------ stream: memrows (real memtable source, row by row)
+
+/// optional field kinds of the memrows / e2e streams: (name, DEFINE type)
+const OPT_FIELDS: &[(&str, &str)] = &[
+    ("oi", "int | null"),
+    ("of", "float | null"),
+    ("ob", "bool | null"),
+    ("ou", "u64 | null"),
+    ("od", "date | null"),
+    ("os", "string | null"),
+];
+
+fn gen_opt_value(r: &mut Rng, field: &str, tag: u64) -> Json {
+    match field {
+        "oi" => json!(match r.below(4) { 0 => i64::MIN + tag as i64, 1 => i64::MAX - tag as i64, _ => r.range(-500, 500) * 7 + tag as i64 }),
+        "of" => json!((r.range(-4000, 4000) as f64) / 4.0 + tag as f64),
+        "ob" => json!(r.chance(1, 2)),
+        "ou" => json!(match r.below(3) { 0 => u64::MAX - tag, 1 => I64_MAX_U + 1 + tag, _ => r.below(100000) + tag }),
+        "od" => json!(86400i64 * (15000 + r.below(4000) as i64 + tag as i64)),
+        _ => Json::String(format!("w{}{}", ["alpha", "beta", "gamma"][r.below(3) as usize], tag)),
+    }
+}
+
+async fn memrows_case(dir: &Path, registry: &Arc<RwLock<SchemaRegistry>>, i: u64, r: &mut Rng, s: &mut Stream) {
+    use snel_db::command::parser::command::parse_command;
+    use snel_db::engine::core::read::flow::shard_pipeline::build_memtable_flow;
+    use snel_db::engine::core::read::flow::{BatchPool, FlowContext, FlowMetrics, FlowTelemetry};
+    use snel_db::engine::core::{MemTable, QueryPlan};
+
+    let et = format!("mr{}_{}", i, r.below(1 << 30));
+    {
+        let mut fields = HashMap::new();
+        fields.insert("k".to_string(), FieldType::I64);
+        fields.insert("oi".to_string(), FieldType::Optional(Box::new(FieldType::I64)));
+        fields.insert("of".to_string(), FieldType::Optional(Box::new(FieldType::F64)));
+        fields.insert("ob".to_string(), FieldType::Optional(Box::new(FieldType::Bool)));
+        fields.insert("ou".to_string(), FieldType::Optional(Box::new(FieldType::U64)));
+        fields.insert("od".to_string(), FieldType::Optional(Box::new(FieldType::Date)));
+        fields.insert("os".to_string(), FieldType::Optional(Box::new(FieldType::String)));
+        registry.write().await.define(&et, MiniSchema { fields }).expect("define");
+    }
+    let filter_ctx: Option<String> = if r.chance(1, 3) { Some(format!("c{}", r.below(3))) } else { None };
+    let ret_field: Option<&str> = if r.chance(1, 2) { Some(OPT_FIELDS[r.below(OPT_FIELDS.len() as u64) as usize].0) } else { None };
+    let mut cmd_text = format!("QUERY {et}");
+    if let Some(c) = &filter_ctx { cmd_text.push_str(&format!(" FOR {c}")); }
+    if let Some(f) = ret_field { cmd_text.push_str(&format!(" RETURN [{f}]")); }
+    let Ok(cmd) = parse_command(&cmd_text) else { s.tally("parse_error"); return; };
+    let seg_ids = Arc::new(std::sync::RwLock::new(Vec::<String>::new()));
+    let plan = QueryPlan::new(cmd, registry, dir, &seg_ids, None).await.expect("plan");
+
+    // events: several rows per context, every optional key carried / explicit null / omitted
+    let n_tables = 1 + r.below(3) as usize; // active + passives
+    let mut tables: Vec<MemTable> = (0..n_tables).map(|_| MemTable::new(1000)).collect();
+    let n = 2 + r.below(14) as usize;
+    for row in 0..n {
+        let mut eb = EventBuilder::new();
+        eb.event_type = et.clone();
+        eb.context_id = format!("c{}", r.below(3));
+        eb.timestamp = 1_700_000_000 + row as u64;
+        eb.event_id = EventId::from(9000 + row as u64);
+        eb.payload.insert("k".into(), ScalarValue::Int64(row as i64));
+        for (f, _) in OPT_FIELDS {
+            match r.below(5) {
+                0 | 1 => { eb.payload.insert(f.to_string(), ScalarValue::from(gen_opt_value(r, f, row as u64))); }
+                2 => { eb.payload.insert(f.to_string(), ScalarValue::Null); }
+                _ => {} // key omitted
+            }
+        }
+        let t = r.below(n_tables as u64) as usize;
+        tables[t].insert(eb.build()).unwrap();
+    }
+    // scan order of the real structures: active, then passives, each in its own iteration order
+    let scan: Vec<Event> = tables.iter().flat_map(|t| t.iter().cloned().collect::<Vec<_>>()).collect();
+    let mut it = tables.into_iter();
+    let active = Arc::new(it.next().unwrap());
+    let passives: Vec<Arc<tokio::sync::Mutex<MemTable>>> = it.map(|t| Arc::new(tokio::sync::Mutex::new(t))).collect();
+    let ctx = Arc::new(FlowContext::new(4, BatchPool::new(4).unwrap(), FlowMetrics::new(), None::<&str>, FlowTelemetry::default()));
+    let handle = build_memtable_flow(Arc::new(plan), Some(active), passives, ctx, None).await.expect("flow");
+    let header: Vec<String> = handle.schema.columns().iter().map(|c| c.name.clone()).collect();
+    let mut rx = handle.receiver;
+    let mut rows: Vec<Vec<ScalarValue>> = vec![];
+    while let Some(b) = rx.recv().await {
+        for idx in 0..b.len() { rows.push(b.row(idx).unwrap()); }
+    }
+    let mut op = format!("memrows {} {} {} {}", header.len(), header.iter().map(|h| hexs(h)).collect::<Vec<_>>().join(" "),
+        filter_ctx.as_ref().map(|c| hexs(c)).unwrap_or("*".into()), scan.len());
+    for e in &scan {
+        op.push_str(&format!(" {} {} {} {} {}", hexs(&e.context_id), hexs(&e.event_type), e.timestamp, e.event_id().raw(), e.payload.len()));
+        for (kname, v) in &e.payload { op.push_str(&format!(" {} {}", hexs(kname), scalar_tok(v))); }
+    }
+    let imp = if rows.is_empty() { "-".to_string() } else {
+        rows.iter().map(|row| row.iter().map(scalar_tok).collect::<Vec<_>>().join(" ")).collect::<Vec<_>>().join(" ; ")
+    };
+    // distribution: a kept row omitting an optional non-string key after a kept row carrying it
+    let kept: Vec<&Event> = scan.iter().filter(|e| filter_ctx.as_ref().map_or(true, |c| &e.context_id == c)).collect();
+    let mut stale_possible = false;
+    for (f, _) in OPT_FIELDS.iter().filter(|(f, _)| *f != "os" && header.iter().any(|h| h == f)) {
+        let mut carried = false;
+        for e in &kept {
+            match e.payload.get(*f) { Some(v) if !v.is_null() => carried = true, None if carried => stale_possible = true, _ => {} }
+        }
+    }
+    if stale_possible { s.tally("omitted_nonstring_key_after_carrying_row"); }
+    s.tally(&format!("memtables={n_tables}"));
+    s.tally(if ret_field.is_some() { "return_one_field" } else { "return_all" });
+    if filter_ctx.is_some() { s.tally("for_context"); }
+    s.tally_n("rows", rows.len() as u64);
+    s.case(&op, &imp, !rows.is_empty());
+    // oracle: every cell is the stored value of its own event (absent key = null)
+    let mut fail: Option<String> = None;
+    if rows.len() != kept.len() { fail = Some(format!("{} rows for {} matching events ({cmd_text})", rows.len(), kept.len())); }
+    for (row, e) in rows.iter().zip(kept.iter()) {
+        for (h, cell) in header.iter().zip(row.iter()) {
+            let want = e.get_field_scalar(h).unwrap_or(ScalarValue::Null);
+            if *cell != want && fail.is_none() {
+                fail = Some(format!("{cmd_text}: row k={:?} column {h}: stored {} returned {}", e.payload.get("k"), scalar_tok(&want), scalar_tok(cell)));
+            }
+        }
+    }
+    match fail { None => s.oracle_ok(), Some(d) => s.oracle_fail(i, "-", &d) }
+}
+
+fn stream_memrows(a: &Args, rt: &tokio::runtime::Runtime) {
+    let mut s = Stream::create(&a.out, "memrows");
+    let dir = a.out.join("memrows_files");
+    let _ = std::fs::remove_dir_all(&dir);
+    std::fs::create_dir_all(&dir).unwrap();
+    let registry = Arc::new(RwLock::new(SchemaRegistry::new_with_path(dir.join("schemas.bin")).expect("registry")));
+    for i in 0..a.cases {
+        if a.only.is_some_and(|o| o != i) {
+            continue;
+        }
+        let mut r = Rng::for_case(a.seed, "memrows", i);
+        rt.block_on(memrows_case(&dir, &registry, i, &mut r, &mut s));
+    }
+    let _ = std::fs::remove_dir_all(&dir);
+    s.finish();
+}
+
+// ------------------------------------------------------------------ stream: e2e (the whole engine, every tier)
+
+struct Stored {
+    ctx: String,
+    ts: u64,
+    k: i64,
+    vals: BTreeMap<String, Option<Json>>, // optional field -> Some(value | null) or None (key omitted)
+}
+
+struct E2e<'a> {
+    s: &'a mut Stream,
+    case: u64,
+    stored: Vec<Stored>,
+    fail: Option<(&'static str, String)>,
+}
+
+impl<'a> E2e<'a> {
+    fn note(&mut self, class: &'static str, d: String) {
+        if self.fail.as_ref().map_or(true, |f| f.0 != "-") {
+            self.fail = Some((class, d));
+        }
+    }
+    /// One read: rows identified by their (unique) timestamp; every payload cell in the header is
+    /// compared with the stored payload of that event.
+    fn check_read(&mut self, tier: &str, memtier: bool, cmd: &str, reply: Option<snel_harness::sys::Reply>, expect_ctx: Option<&str>) {
+        let Some(rep) = reply else { self.note("-", format!("{tier}: engine died on {cmd}")); return; };
+        if !rep.ok() {
+            // an empty REPLAY/QUERY result may be reported as not-found: only then accept
+            let expected_rows = self.stored.iter().filter(|e| expect_ctx.map_or(true, |c| e.ctx == c)).count();
+            if expected_rows > 0 { self.note("-", format!("{tier}: {cmd} -> status {} {}", rep.status, rep.message)); }
+            return;
+        }
+        let Some(ts_idx) = rep.columns.iter().position(|c| c == "timestamp") else { self.note("-", format!("{tier}: {cmd}: no timestamp column")); return; };
+        let expected_rows = self.stored.iter().filter(|e| expect_ctx.map_or(true, |c| e.ctx == c)).count();
+        if rep.rows.len() != expected_rows { self.s.tally("row_count_differs"); }
+        self.s.tally(&format!("reads_{tier}"));
+        let mut carried: BTreeSet<String> = BTreeSet::new();
+        let mut stale_possible = false;
+        for row in &rep.rows {
+            let ts = row.get(ts_idx).and_then(|v| v.as_u64()).unwrap_or(0);
+            let Some(ev) = self.stored.iter().find(|e| e.ts == ts) else {
+                let d = format!("{tier}: {cmd}: row with unknown timestamp {ts}");
+                self.note("-", d);
+                continue;
+            };
+            let (evk, evctx) = (ev.k, ev.ctx.clone());
+            let vals = ev.vals.clone();
+            for (h, cell) in rep.columns.iter().zip(row.iter()) {
+                if h == "context_id" { if cell.as_str() != Some(evctx.as_str()) { self.note("-", format!("{tier}: {cmd}: context_id {cell} for event k={evk} of {evctx}")); } continue; }
+                if h == "k" { if cell.as_i64() != Some(evk) { self.note("-", format!("{tier}: {cmd}: k {cell} for event k={evk}")); } continue; }
+                let Some(st) = vals.get(h) else { continue };
+                if h != "os" {
+                    match st { Some(v) if !v.is_null() => { carried.insert(h.clone()); } None if carried.contains(h) => stale_possible = true, _ => {} }
+                }
+                let want = st.clone().unwrap_or(Json::Null);
+                if json_same(cell, &want) { continue; }
+                let class: &'static str = if h == "os" && want.is_null() && *cell == json!("") && !memtier { "null-as-empty-string" } else { "-" };
+                self.note(class, format!("{tier}: {cmd}: event k={evk} ({evctx}) field {h}: stored {} ({}) returned {}", json_tok(&want), if st.is_none() { "key omitted" } else { "key present" }, json_tok(cell)));
+            }
+        }
+        if memtier && stale_possible { self.s.tally("memtier_reads_with_omitted_nonstring_key_after_carrying_row"); }
+    }
+}
+
+fn e2e_reads(x: &mut E2e, sess: &mut snel_harness::sys::Session, et: &str, tier: &str, memtier: bool, r: &mut Rng) {
+    let q = format!("QUERY {et}");
+    let rep = sess.cmd(&q);
+    x.check_read(tier, memtier, &q, rep, None);
+    // one payload field at a time (two or more have a nondeterministic cell order, a recorded finding)
+    let mut fields: Vec<&str> = OPT_FIELDS.iter().map(|f| f.0).collect();
+    r.shuffle(&mut fields);
+    for f in fields.iter().take(3) {
+        let q = format!("QUERY {et} RETURN [{f}]");
+        let rep = sess.cmd(&q);
+        x.check_read(tier, memtier, &q, rep, None);
+    }
+    let ctxs: BTreeSet<String> = x.stored.iter().map(|e| e.ctx.clone()).collect();
+    for c in ctxs {
+        let q = format!("REPLAY {et} FOR {c}");
+        let rep = sess.cmd(&q);
+        x.check_read(tier, memtier, &q, rep, Some(&c));
+        let f = fields[r.below(fields.len() as u64) as usize];
+        let q = format!("REPLAY {et} FOR {c} RETURN [{f}]");
+        let rep = sess.cmd(&q);
+        x.check_read(tier, memtier, &q, rep, Some(&c));
+    }
+}
+
+fn e2e_store(x: &mut E2e, sess: &mut snel_harness::sys::Session, et: &str, r: &mut Rng, count: usize) {
+    for _ in 0..count {
+        let idx = x.stored.len() as u64;
+        let ctx = format!("c{}", r.below(2));
+        let ts = 1_700_000_000 + idx;
+        let mut obj = serde_json::Map::new();
+        obj.insert("k".into(), json!(idx));
+        let mut vals = BTreeMap::new();
+        for (f, _) in OPT_FIELDS {
+            // the first event of a context carries everything, later ones mix
+            let first = !x.stored.iter().any(|e| e.ctx == ctx);
+            match if first { 0 } else { r.below(5) } {
+                0 | 1 => { let v = gen_opt_value(r, f, idx); obj.insert(f.to_string(), v.clone()); vals.insert(f.to_string(), Some(v)); }
+                2 => { obj.insert(f.to_string(), Json::Null); vals.insert(f.to_string(), Some(Json::Null)); }
+                _ => { vals.insert(f.to_string(), None); }
+            }
+        }
+        sess.ctl(json!({"ctl": "store_now", "secs": ts}));
+        let cmd = format!("STORE {et} FOR {ctx} PAYLOAD {}", Json::Object(obj));
+        match sess.cmd(&cmd) {
+            Some(rep) if rep.ok() => x.stored.push(Stored { ctx, ts, k: idx as i64, vals }),
+            Some(rep) => x.note("-", format!("STORE rejected ({} {}): {cmd}", rep.status, rep.message)),
+            None => x.note("-", format!("engine died on {cmd}")),
+        }
+    }
+}
+
+fn e2e_wait_visible(sess: &mut snel_harness::sys::Session, et: &str, n: usize) {
+    for _ in 0..200 {
+        if let Some(rep) = sess.cmd(&format!("QUERY {et} RETURN [k]")) {
+            if rep.rows.len() >= n { return; }
+        }
+        std::thread::sleep(std::time::Duration::from_millis(5));
+    }
+}
+
+fn e2e_case(a: &Args, i: u64, r: &mut Rng, s: &mut Stream) {
+    use snel_harness::sys::{Session, SysCfg};
+    let root = a.out.join(format!("e2e_{i}"));
+    let _ = std::fs::remove_dir_all(&root);
+    let passive_variant = r.chance(1, 3);
+    let n1 = 4 + r.below(6) as usize;
+    let mut cfg = SysCfg::default();
+    cfg.shards = 1;
+    cfg.segments_per_merge = 2;
+    if passive_variant { cfg.event_per_zone = n1; cfg.fill_factor = 1; } else { cfg.event_per_zone = 8; cfg.fill_factor = 4; }
+    let et = "ev".to_string();
+    let mut x = E2e { s, case: i, stored: vec![], fail: None };
+    let mut sess = Session::start(&root, &cfg);
+    let define = format!("DEFINE {et} FIELDS {{ k: \"int\", {} }}", OPT_FIELDS.iter().map(|(f, t)| format!("{f}: \"{t}\"")).collect::<Vec<_>>().join(", "));
+    match sess.cmd(&define) { Some(rep) if rep.ok() => {}, other => { x.note("-", format!("DEFINE failed: {:?}", other.map(|o| o.message))); } }
+    x.s.tally(if passive_variant { "variant=passive_buffer" } else { "variant=memtable+wal_restart" });
+    if passive_variant {
+        // the n1-th STORE fills the memtable; the flush worker is parked before it writes anything,
+        // so the rows are served from the passive buffer
+        sess.ctl(json!({"ctl": "arm_park", "point": "flush.registered"}));
+        e2e_store(&mut x, &mut sess, &et, r, n1);
+        let parked = sess.ctl(json!({"ctl": "wait_parked", "point": "flush.registered", "ms": 3000})).and_then(|v| v["parked"].as_u64()).unwrap_or(0);
+        if parked > 0 {
+            x.s.tally("passive_phase_reached");
+            e2e_reads(&mut x, &mut sess, &et, "passive", true, r);
+        }
+        sess.ctl(json!({"ctl": "release_all"}));
+        sess.ctl(json!({"ctl": "await_flush"}));
+        std::thread::sleep(std::time::Duration::from_millis(30));
+        e2e_reads(&mut x, &mut sess, &et, "flushed", false, r);
+    } else {
+        e2e_store(&mut x, &mut sess, &et, r, n1);
+        e2e_wait_visible(&mut sess, &et, x.stored.len());
+        e2e_reads(&mut x, &mut sess, &et, "memtable", true, r);
+        // restart: the WAL is replayed into the memtable
+        for _ in 0..200 { if sess.wal_lines(0) >= x.stored.len() { break; } std::thread::sleep(std::time::Duration::from_millis(5)); }
+        sess.kill();
+        sess = Session::start(&root, &cfg);
+        e2e_wait_visible(&mut sess, &et, x.stored.len());
+        e2e_reads(&mut x, &mut sess, &et, "wal_replay", true, r);
+        if let Some(rep) = sess.cmd("FLUSH") { if !rep.ok() { x.note("-", format!("FLUSH failed {}", rep.message)); } }
+        e2e_reads(&mut x, &mut sess, &et, "flushed", false, r);
+    }
+    // a second segment, then one compaction round, read after a restart (fresh caches)
+    let n2 = 2 + r.below(3) as usize;
+    let before = x.stored.len();
+    e2e_store(&mut x, &mut sess, &et, r, n2);
+    e2e_wait_visible(&mut sess, &et, before + n2);
+    if let Some(rep) = sess.cmd("FLUSH") { if !rep.ok() { x.note("-", format!("FLUSH failed {}", rep.message)); } }
+    let ran = sess.compact(0).and_then(|v| v["ran"].as_bool()).unwrap_or(false);
+    if ran {
+        x.s.tally("compaction_ran");
+        sess.kill();
+        sess = Session::start(&root, &cfg);
+        e2e_reads(&mut x, &mut sess, &et, "compacted", false, r);
+    }
+    sess.kill();
+    let pattern: String = x.stored.iter().map(|e| {
+        let cells: String = e.vals.values().map(|v| match v { None => 'o', Some(Json::Null) => 'n', Some(_) => 'c' }).collect();
+        format!("{}:{}", e.ctx, cells)
+    }).collect::<Vec<_>>().join(",");
+    let summary = format!("e2e variant={} stored={} keys(c=carried,n=null,o=omitted)={}", if passive_variant { "passive" } else { "memtable" }, x.stored.len(), pattern);
+    let fail = x.fail.take();
+    let case = x.case;
+    s.tally_n("events", before as u64 + n2 as u64);
+    s.case(&summary, "done", true);
+    match fail { None => s.oracle_ok(), Some((c, d)) => s.oracle_fail(case, c, &d) }
+    let _ = std::fs::remove_dir_all(&root);
+}
+
+fn stream_e2e(a: &Args) {
+    let mut s = Stream::create(&a.out, "e2e");
+    for i in 0..a.cases {
+        if a.only.is_some_and(|o| o != i) {
+            continue;
+        }
+        let mut r = Rng::for_case(a.seed, "e2e", i);
+        e2e_case(a, i, &mut r, &mut s);
+    }
+    s.finish();
+}
+
 fn main() {
+    snel_harness::sys::maybe_child();
     let a = parse_args();
     std::fs::create_dir_all(&a.out).unwrap();
     let cfg = write_config(&a.out);
@@ -1200,6 +1550,8 @@ fn main() {
         "f64parse" => stream_f64parse(&a),
         "flush" => stream_flush(&a, &rt),
         "project" => stream_project(&a, &rt),
+        "memrows" => stream_memrows(&a, &rt),
+        "e2e" => stream_e2e(&a),
         other => {
             eprintln!("unknown stream {other}");
             std::process::exit(2);
